@@ -1073,6 +1073,12 @@ impl SendKind {
                         Some(b"Range start after end of body"),
                     )
                     .await;
+                    // This replaces a response selected by `range` and the headers of the vary
+                    // rules, so it has to advertise them, like the response it replaces.
+                    vary::apply_header_from_settings(
+                        &mut response,
+                        &host.vary.rules_from_request(request),
+                    );
                 }
                 Err(SanitizeError::UnsafePath) => {
                     response = default_error(StatusCode::BAD_REQUEST, Some(host), None).await;
